@@ -344,6 +344,25 @@ def run(ctx: Ctx) -> None:
                              False)
         distinct += _explore(ctx, "n4_r3_consistent", 4, 3, False, False,
                              [(1, 3, 1, 3, 1, 6)], False)
+    # six teams, single round robin: all completions of the first day row(s)
+    six = [(1, 3, 1, 3, 0, 5), (1, 2, 1, 2, 0, 5), (2, 3, 1, 3, 0, 5)]
+    if quick:
+        cfg6 = M.day_configs(6)
+        pairs0 = {frozenset((t, abs(v) - 1)) for t, v in enumerate(cfg6[0])}
+        b = next(i for i, r in enumerate(cfg6) if not pairs0 & {
+            frozenset((t, abs(v) - 1)) for t, v in enumerate(r)}
+            and sum(1 for t in range(6)
+                    if (r[t] > 0) != (cfg6[0][t] > 0)) == 6)
+        distinct += _explore(ctx, "n6_r1_first_two_days_fixed", 6, 1, False,
+                             False, six, False, b * 120 ** 3,
+                             (b + 1) * 120 ** 3)
+        ctx.cap("6 teams: only the 120^3 single round-robin plans whose "
+                "first two days are the first day row")
+    else:
+        distinct += _explore(ctx, "n6_r1_first_day_fixed", 6, 1, False,
+                             False, six[:2], False, 0, 120 ** 4)
+        ctx.cap("6 teams: only the 120^4 single round-robin plans whose "
+                "first day is the first day row")
     # public API path with one reused objective object
     pub = [(1, 3, 1, 3, 1, 6), (2, 3, 1, 2, 0, 1), (1, 2, 2, 3, 1, 2)]
     pub3 = [(1, 3, 1, 3, 1, 3), (2, 3, 1, 2, 0, 1), (1, 2, 2, 3, 1, 2)]
@@ -385,7 +404,7 @@ def run(ctx: Ctx) -> None:
     ctx.sample({"plan": y.tolist(), "setting": [1, 3, 1, 3, 0, 3],
                 "errors": public_eval(y, 4, [1, 3, 1, 3, 0, 3]),
                 "feasible": bool(M.feasible(y, 4, 1, 3, 1, 3, 0, 3))})
-    ctx.assume("team counts 2 and 4 only; rounds <= 4 (n=2), <= 2 complete "
+    ctx.assume("team counts 2 and 4 (6: a slice); rounds <= 4 (n=2), <= 2 complete "
                "and a slice of 3 (n=4); streak limits <= 3, separation "
                "limits from {0,1,2,3,6}")
 
